@@ -1,6 +1,7 @@
 """Discharging obligations: SMT-LIB export, solver portfolio (z3 5.1 / z3 4.8.12 / cvc5 1.0.3), model extraction."""
 import z3, subprocess, tempfile, os, time, re, concurrent.futures, itertools
-from symex import QForall, Obligation
+from symex import Obligation
+from values import QForall
 from values import is_z3
 
 SOLVERS = {
